@@ -25,6 +25,14 @@ def histories_from_gen(gen_fn, n, seed, max_stages):
     return hs
 
 
+def _jfix(n):
+    """node JSON as printed by TLC (md is a list of pairs) -> projection shape"""
+    n = dict(n)
+    n["md"] = [list(e) for e in n.get("md", [])]
+    n["ch"] = [[k, _jfix(c)] for k, c in n["ch"]]
+    return n
+
+
 def run(spec, prop, tier, seed, replay, keep):
     """spec: the property's entry of registry.BUILDER"""
     import main as M
@@ -48,9 +56,20 @@ def _run(spec, prop, tier, seed, replay, wd):
         traces = E.record([(1, body["docs"], body["safes"])], nproc=1)
         rows, _ = E.validate(prop, traces, wd, workers=1)
         row = rows.get(1)
-        print("replay:", row[:3] if row else "rejected by the specification")
+        print("replay: (model-vs-library, formula on library outcome, formula on model outcome) =", row[:3] if row else "rejected by the specification")
         for y in body["yaml"]:
             print("---\n" + y, end="")
+        import drive
+        outs = drive.stage_outcomes(body["docs"], body["safes"])
+        for j, o in enumerate(outs):
+            print(f"  library after stage {j+1}:", json.dumps(E.compact_node(o) if "err" not in o else {"e": o["err"]}))
+        if row and row[3]:
+            try:
+                for j, m in enumerate(json.loads(row[3])["model"]):
+                    mm = m if "err" in m else E.compact_node(_jfix(m))
+                    print(f"  model   after stage {j+1}:", json.dumps(mm))
+            except Exception as e:  # noqa
+                print("  (model detail not decodable)", e)
         ok = row is not None and row[1] != "violated"
         return {"violations": [] if ok else [replay], "level": "model_checking", "coverage": cov, "assumptions": ASSUME}
 
@@ -59,13 +78,17 @@ def _run(spec, prop, tier, seed, replay, wd):
     next_tid = 1000000
     tid_info = {}
     replayed = 0
-    for (docs_name, smin, smax) in spec["exh"][tier]:
+    for entry in spec["exh"][tier]:
+        docs_name, smin, smax = entry[:3]
+        drange = entry[3] if len(entry) > 3 else "WholeRange"
         sub = os.path.join(wd, "exh_" + docs_name + f"_{smax}")
         os.makedirs(sub)
-        ex = E.exhaustive(prop, docs_name, smin, smax, spec["invariants"], sub, safes=spec.get("safes", "{TRUE}"))
+        ex = E.exhaustive(prop, docs_name, smin, smax, spec["invariants"], sub, safes=spec.get("safes", "{TRUE}"), doc_range=drange)
         if ex["violated"]:
+            cex = ex["cex"]
+            shown = ("\n".join("---\n" + S.render_doc(d) for d in cex["docs"]) + "\nmodel: " + json.dumps(cex["x"])) if cex else ex["raw"]["out"][-3000:]
             raise E.MachineryError(f"the specification itself violates {ex['violated']} on {docs_name}: "
-                                   "the intended design does not satisfy the property formula\n" + ex["raw"]["out"][-3000:])
+                                   "the intended design does not satisfy the property formula\n" + shown)
         uni, behs = ex["universe"], ex["behaviours"]
         cov["configs"].append({"universe": docs_name, "documents": len(uni), "stages": [smin, smax],
                                "states": ex["states"], "transitions": ex["transitions"], "behaviours": len(behs),
@@ -116,8 +139,9 @@ def _run(spec, prop, tier, seed, replay, wd):
         if spec["nontrivial"](docs):
             nontrivial.add(E.sha(docs))
         if mv == "violated":
-            raise E.MachineryError(f"the specification violates the property formula on recorded history {tid}: "
-                                   + json.dumps([S.render_doc(d) for d in docs]))
+            path = E.write_replay(prop, docs, safes, {"verdict": list(rows[tid][:3]), "note": "MODEL violates the formula"})
+            raise E.MachineryError(f"the specification violates the property formula on recorded history {tid} "
+                                   f"(replay={path}): " + json.dumps([S.render_doc(d) for d in docs]))
         pvs[pv] += 1
         if pv == "violated":
             bad.append(tid)
@@ -163,7 +187,7 @@ def _run(spec, prop, tier, seed, replay, wd):
         os.makedirs(sub)
         ex = E.exhaustive(prop, mu["docs"], mu["stages"][0], mu["stages"][1], mu["expect"], sub,
                           switches=[mu["switch"]] if mu.get("switch") else (), mutation=mu.get("mutation"), emit=False,
-                          safes=spec.get("safes", "{TRUE}"))
+                          safes=spec.get("safes", "{TRUE}"), doc_range=mu.get("range", "WholeRange"))
         refuted = bool(ex["violated"])
         cov["mutations"].append({"mutation": mu.get("switch") or mu.get("mutation"), "universe": mu["docs"],
                                  "refuted_by_tlc": refuted, "violated": ex["violated"], "tlc_wall_s": round(ex["wall"], 1)})
